@@ -639,6 +639,7 @@ package statefulset
 
 // ---- event handlers and the work queue (C16) -----------------------------------------------------------
 //@ globalinv controllerKind.Kind == "StatefulSet"
+//@ globalinit controllerKind: apps.SchemeGroupVersion.WithKind("StatefulSet")
 // nsKey(ns, name): the work-queue key "ns/name" (cache.MetaNamespaceKeyFunc), uninterpreted
 //@ spec func nsKey(ns string, name string) string
 //@ spec func setKey(s *apps.StatefulSet) string = nsKey(s.Namespace, s.Name)
